@@ -10,6 +10,9 @@ pub mod lowpan;
 pub mod mini;
 pub mod tcp;
 pub mod udp6;
+pub mod x1;
+pub mod x2;
+pub mod x3;
 
 pub type R<T> = Result<T, String>;
 
